@@ -366,8 +366,52 @@ fn check_candidate(c: &Candidate, base: &Proj, l: &mut Local) {
     }
 }
 
-pub fn candidates(tier: Tier) -> Vec<Candidate> {
+/// Multi-column family: a tuple with a list column and an integer column, over a pattern
+/// set kept small (element patterns are wildcards only) so that *longer* clause sequences
+/// are affordable: how rows with a list-with-tail pattern are distributed over the
+/// exact-length cases of a column only matters once other columns and >= 4 clauses interact.
+fn list_column_family(tier: Tier) -> Vec<Candidate> {
+    let ty = Ty::Tuple(vec![Ty::List(Rc::new(Ty::Bool)), Ty::Int]);
+    let w = || Pat::Discard;
+    let lists = vec![w(), Pat::List(vec![], None), Pat::List(vec![w()], None), Pat::List(vec![w()], Some(None)), Pat::List(vec![w(), w()], None), Pat::List(vec![w(), w()], Some(None))];
+    let ints = vec![w(), Pat::Int(0), Pat::Int(1)];
+    let mut ps: Vec<Pat> = vec![Pat::Discard];
+    for l in &lists {
+        for i in &ints {
+            ps.push(Pat::Tuple(vec![l.clone(), i.clone()]));
+        }
+    }
+    let n = ps.len();
     let mut out = vec![];
+    let full_len = if tier == Tier::Quick { 3 } else { 4 };
+    let mut seqs: Vec<Vec<usize>> = vec![vec![]];
+    for _ in 0..full_len {
+        seqs = seqs.iter().flat_map(|s| (0..n).map(move |k| [s.as_slice(), &[k]].concat())).collect();
+        out.extend(seqs.iter().map(|s| Candidate { ty: ty.clone(), clauses: s.iter().map(|k| ps[*k].clone()).collect() }));
+    }
+    // longer sequences of the common shape: a first clause that is refutable in the list
+    // column, a catch-all last clause, everything in between
+    let firsts: Vec<usize> = (0..n).filter(|k| matches!(&ps[*k], Pat::Tuple(xs) if !matches!(xs[0], Pat::Discard))).collect();
+    let middle_len = if tier == Tier::Quick { 3 } else { 4 };
+    let mut mids: Vec<Vec<usize>> = vec![vec![]];
+    for _ in 0..middle_len {
+        mids = mids.iter().flat_map(|s| (1..n).map(move |k| [s.as_slice(), &[k]].concat())).collect();
+    }
+    // quick tier: only `[]` first (the column the tree switches on first)
+    let firsts: Vec<usize> = if tier == Tier::Quick { firsts.into_iter().filter(|k| matches!(&ps[*k], Pat::Tuple(xs) if matches!(&xs[0], Pat::List(e, None) if e.is_empty()))).collect() } else { firsts };
+    for f in &firsts {
+        for m in &mids {
+            let mut idx = vec![*f];
+            idx.extend(m);
+            idx.push(0);
+            out.push(Candidate { ty: ty.clone(), clauses: idx.iter().map(|k| ps[*k].clone()).collect() });
+        }
+    }
+    out
+}
+
+pub fn candidates(tier: Tier) -> Vec<Candidate> {
+    let mut out = list_column_family(tier);
     for ty in scrutinee_types(tier) {
         let ps = pats(&ty, 2, false);
         let small = ps.len() <= 8;
